@@ -267,6 +267,25 @@ def run_shard(ctx):
                             break
             if rpms.get_max("no-such-package") is not None or rpms.oldest("no-such-package") is not None:
                 ctx.violation("extremum-of-absent-package-not-none", {}, spec={"list": []})
+            # the same look-ups on another component that mixes RpmList in and fills `packages` itself, in input order
+            # (what the yum-list parsers and user components do)
+            from insights.parsers.installed_rpms import RpmList
+
+            class OwnList(RpmList):
+                def __init__(self, pk):
+                    self.packages = pk
+            own = OwnList(dict((nm, [mkrpm(nm, e) for e in evrs[nm]]) for nm in names))
+            for nm in names:
+                for fname in ("get_max", "newest", "get_min", "oldest"):
+                    m = getattr(own, fname)(nm)
+                    me = (int(m.epoch), m.version, m.release)
+                    ctx.count("extrema_checked")
+                    for o in evrs[nm]:
+                        c = ref_evr(o, me)
+                        if (fname in ("get_max", "newest") and c > 0) or (fname in ("get_min", "oldest") and c < 0):
+                            ctx.violation("extremum-is-not-extreme", {"function": fname, "returned": me, "better": o, "all": evrs[nm], "component": "RpmList mixin with its own package lists"},
+                                          spec={"list": evrs[nm]})
+                            break
     # (ii) laws, exhaustively per alphabet
     maxlen = 3 if ctx.tier == "quick" else 4
     nalph = 6 if ctx.tier == "quick" else 3
